@@ -171,6 +171,91 @@ def isinstance_check(g, mm, model):
     return out
 
 
+# ---------------------------------------------------------------- grammars spread over files
+# the same short rule names in two files, on one inheritance path (main.Shape -> base.Basic -> base.Shape):
+# rule kinds and the isinstance relation are per class, not per name
+from ..gram import S, A, Str, Ref, Asg, Rule      # noqa: E402
+MF = {
+    'main': (['base'], [Rule('Model', Asg('shapes', '+=', Ref('Shape'))),
+                        Rule('Shape', A(Ref('Basic'), Ref('Tri'))),
+                        Rule('Tri', S(Str('tri'), Asg('name', '=', Ref('ID')))),
+                        Rule('Group', A(Ref('Tri'), Ref('Leaf')))]),
+    'base': ([], [Rule('Basic', A(Ref('Shape'), Ref('Leaf'))),
+                  Rule('Shape', A(Ref('Circle'), Ref('Square'))),
+                  Rule('Circle', S(Str('circle'), Asg('name', '=', Ref('ID')))),
+                  Rule('Square', S(Str('square'), Asg('name', '=', Ref('ID')))),
+                  Rule('Leaf', S(Str('leaf'), Asg('name', '=', Ref('ID')))),
+                  Rule('Group', A(Ref('Circle'), Ref('Leaf')))]),
+}
+MF_MODEL = 'circle c square s leaf l tri t'
+
+
+def mf_qualified():
+    """one rule list with names '<file>.<rule>', references resolved by the documented order"""
+    defined = {ns: {r[0] for r in rules} for ns, (imps, rules) in MF.items()}
+
+    def owner(ns, name):
+        if name in defined[ns]:
+            return ns
+        for i in MF[ns][0]:
+            if name in defined[i]:
+                return i
+        return None
+
+    def ren(ns, e):
+        if isinstance(e, tuple):
+            if e and e[0] == 'ref' and owner(ns, e[1]):
+                return ('ref', owner(ns, e[1]) + '.' + e[1]) + tuple(e[2:])
+            return tuple(ren(ns, x) for x in e)
+        if isinstance(e, list):
+            return [ren(ns, x) for x in e]
+        return e
+    out = []
+    for ns, (imps, rules) in MF.items():
+        for name, params, body in rules:
+            out.append((ns + '.' + name, params, ren(ns, body)))
+    return out
+
+
+def multi_file_check():
+    """[(problem text)] on the real metamodel compiled from files"""
+    import os
+    import shutil
+    import tempfile
+    from textx import metamodel_from_file, get_children, textx_isinstance
+    rel, kinds = ref_instance_of(mf_qualified())
+    tmp = tempfile.mkdtemp(prefix='c03m_')
+    out = []
+    try:
+        for ns, (imps, rules) in MF.items():
+            with open(os.path.join(tmp, ns + '.tx'), 'w') as f:
+                f.write(''.join('import %s\n' % i for i in imps) + gram.render_grammar(rules))
+        mm = metamodel_from_file(os.path.join(tmp, 'main.tx'))
+        for q, k in kinds.items():
+            ns, name = q.split('.')
+            live = getattr(mm.namespaces[ns][name], '_tx_type', None)
+            if live != k:
+                out.append('rule %s is typed %r, reference %r' % (q, live, k))
+        model = mm.model_from_str(MF_MODEL)
+        for o in get_children(lambda x: True, model):
+            oq = type(o)._tx_fqn
+            for q in kinds:
+                ns, name = q.split('.')
+                old = sys.getrecursionlimit()
+                sys.setrecursionlimit(300)
+                try:
+                    got = textx_isinstance(o, mm.namespaces[ns][name])
+                except RecursionError:
+                    got = 'RecursionError'
+                finally:
+                    sys.setrecursionlimit(old)
+                if got != ((oq, q) in rel):
+                    out.append('textx_isinstance(<%s>, %s) is %r, expected %r' % (oq, q, got, (oq, q) in rel))
+        return out
+    finally:
+        shutil.rmtree(tmp, ignore_errors=True)
+
+
 def obligation(item):
     gi, n, timeout_ms, nw, wlimit, known_ids = item
     g = corpus_list()[gi]
@@ -232,6 +317,9 @@ def main():
     for s in statics:
         chk.violation('rule %s of grammar %s is typed %r, reference %r' % (s['rule'], s['grammar'], s['live'],
                                                                            s['reference']), s)
+    for pr in multi_file_check()[:4]:
+        chk.violation('grammar in two files (main.tx imports base.tx): %s' % pr, {'kind': 'multi-file'})
+    chk.cov['bounds']['multi_file'] = 'one two-file grammar with clashing short names on one inheritance path, one model (concrete)'
     nontrivial = holds = 0
     seen = set()
     for it, (st, r, secs) in zip(items, results):
@@ -275,6 +363,9 @@ def main():
 
 
 def replay(data):
+    if data.get('kind') == 'multi-file':
+        pr = multi_file_check()
+        return bool(pr), pr[:3]
     gs = corpus.ALL + corpus.random_corpus(seed() + 3, 30)
     g = next(x for x in gs if x['name'] == data['grammar'])
     mm = pegcheck.build_mm(g, **g['cfg'])
